@@ -6,6 +6,7 @@ import (
 	"encoding/json"
 	"fmt"
 	"os"
+	"path/filepath"
 	"runtime"
 	"strings"
 	"testing"
@@ -115,6 +116,12 @@ func TestWorker(t *testing.T) {
 	// process has the same certificates
 	cryptotest.SetGlobalRandom(t, 0x5eed)
 	GetPKI()
+	// The operating system's trust store of the simulated hosts holds the foreign CA (and nothing else):
+	// "untrusted" in the properties means "does not chain to the *configured* CA", and a certificate
+	// from a root the OS happens to trust is the realistic instance of it. Must be in place before the
+	// process loads system roots for the first time.
+	os.Setenv("SSL_CERT_FILE", pkiFile("system-roots.pem", GetPKI().ForeignCA.CertPEM))
+	os.Setenv("SSL_CERT_DIR", filepath.Dir(pkiFile("system-roots.pem", ""))+"/no-such-dir")
 
 	out, err := os.OpenFile(spec.Out, os.O_CREATE|os.O_WRONLY|os.O_APPEND, 0644)
 	if err != nil {
